@@ -365,3 +365,75 @@ def run_c04(facts, rep):
             rep.ok(R, c + "/step0", "conjugation / column swap applies the element of step 0", facts.loc(c))
         else:
             rep.violation(R, c + "/step0", "conjugate_internal does not apply get_elt_from_step(0)", facts.loc(c))
+
+
+def run_table_siblings(facts, rep, fn_filter):
+    """R-PAIR(tables) [N, sibling agreement]: inside one function, a buffer that is defined by the same slicing
+    expression in sibling branches (e.g. the special-prime component `t_last` in the BGV and the BFV/CKKS arm of the key
+    switch) must be transformed with the SAME NTT table index in every branch — it is the same RNS slot, so one table
+    is the right one; if the arms disagree, one of them transforms the slot with another prime's table."""
+    from r_encbound import render
+    from facts import Defs
+    R = "R-PAIR(tables)"
+    rep.rule(R, "a buffer defined by the same slicing expression in sibling branches is transformed with the same NTT "
+             "table index in each of them")
+    n = 0
+    for p in sorted(facts.hir):
+        if not fn_filter(p):
+            continue
+        body = facts.hir[p]
+        lets = {}
+        for x in walk(body):
+            if x.get("k") == "Let" and x["pat"].get("k") == "PBind" and "init" in x:
+                lets.setdefault(x["pat"]["name"], []).append((x["pat"]["lid"], render_full(x["init"])))
+        groups = {}
+        for x in walk(body):
+            f = callee(x)
+            if not f or x.get("k") != "Call" or not f["def"].startswith("util::polysmallmod::"):
+                continue
+            if f["name"] not in ("ntt", "ntt_lazy", "intt", "intt_lazy") or len(x["args"]) < 2:
+                continue
+            lo = local_of(x["args"][0])
+            if not lo:
+                continue
+            defn = [d for l, d in lets.get(lo[1], []) if l == lo[0]]
+            if not defn:
+                continue
+            if "from_raw_parts" not in defn[0] and '"k": "Index"' not in defn[0]:
+                continue          # a scratch allocation, not a slot of a larger buffer
+            idx = None
+            t = strip(x["args"][1])
+            if t.get("k") == "Index":
+                idx = render(t["i"])
+            direction = "inverse" if f["name"].startswith("intt") else "forward"
+            groups.setdefault((lo[1], defn[0], direction), []).append((idx, x, lo[0]))
+        for (name, defn, direction), uses in sorted(groups.items()):
+            lids = {u[2] for u in uses}
+            if len(lids) < 2:
+                continue          # only one binding: no sibling to compare with
+            n += 1
+            rep.fn(p)
+            idxs = {u[0] for u in uses}
+            key = "%s/%s/%s" % (p, name, direction)
+            if len(idxs) == 1:
+                rep.ok(R, key, "`%s` (same slot in %d sibling branches) is %s-transformed with table index `%s` in each" %
+                       (name, len(lids), direction, next(iter(idxs))), facts.loc(p, uses[0][1]),
+                       sample={"function": p, "buffer": name, "table_index": next(iter(idxs))})
+            else:
+                rep.violation(R, key, "`%s` denotes the same RNS slot in %d sibling branches but is %s-transformed with "
+                              "different NTT tables: %s — one branch uses another prime's table for this slot" %
+                              (name, len(lids), direction, " vs ".join("[%s] (line %s)" % (u[0], u[1].get("l")) for u in uses)),
+                              facts.loc(p, uses[-1][1]))
+    return n
+
+
+def render_full(e):
+    """structural rendering of an arbitrary expression (blocks, unsafe slices) for equality of definitions"""
+    import json
+    def norm(x):
+        if isinstance(x, dict):
+            return {k: norm(v) for k, v in x.items() if k not in IGN and k != "f"} | ({"callee": x["f"]["def"]} if isinstance(x.get("f"), dict) else {})
+        if isinstance(x, list):
+            return [norm(y) for y in x]
+        return x
+    return json.dumps(norm(e), sort_keys=True)
